@@ -1,1 +1,2 @@
 pub mod gdsgen;
+pub mod shapes;
